@@ -83,7 +83,48 @@ def build(case):
             ids.append(eff)
         expl = [None if ids[i] == hash(labs[i]) else ids[i] for i in range(n)]
         nodes = gen.build(t, f, lambda i: labs[i], data_id=lambda i: expl[i])
+    if case.get("prelude"):
+        nodes = prelude(t, nodes, rng)
     return t, nodes
+
+
+def prelude(t, nodes, rng):
+    """A few mutations before the searches, so that the index paths are exercised on a tree
+    with a history (re-labelled clones, removed and moved nodes).  Everything the oracle needs
+    is re-read from the tree afterwards."""
+    from nutree import TreeError
+
+    for _ in range(3):
+        live = list(t)
+        if not live:
+            break
+        n = rng.choice(live)
+        try:
+            r = rng.random()
+            if r < 0.45:
+                clones = [x for x in live if x.is_clone()]
+                if clones:
+                    n = rng.choice(clones)
+                new = rng.choice([x.data for x in live] + ["zz", "b"])
+                n.set_data(new, with_clones=rng.choice([False, False, True]))
+            elif r < 0.65:
+                n.remove()
+            elif r < 0.85:
+                tgt = rng.choice(live + [t])
+                n.move_to(tgt)
+            else:
+                n.add(rng.choice(STR_ALPH + [1, 2]))
+        except (TreeError, ValueError, NotImplementedError, AssertionError):
+            pass
+    out = []
+
+    def rec(h):
+        for c in h.children:
+            out.append(c)
+            rec(c)
+
+    rec(t)
+    return out
 
 
 def run_case(case, res):
@@ -213,7 +254,7 @@ def run_case(case, res):
                     bad.append(f"tree[<node>] -> {got!r}, expected ValueError")
                 res.count("getitem:nodekey")
             # ---- del tree[key] on a fresh copy of the case ---------------------------
-            for which in range(min(3, len(order))):
+            for which in range(0 if case.get("prelude") else min(3, len(order))):
                 # simple form: resolve, then delete by the same key and compare
                 for sel in ("node_id", "data_id", "data"):
                     t3, nodes3 = build(case)
@@ -273,10 +314,10 @@ NSHARDS = 16
 
 
 def shards(tier, seed):
-    bound = 5 if tier == "quick" else 7
+    bound = 6 if tier == "quick" else 7
     out = [{"name": f"enum{i}", "kind": "enum", "i": i, "bound": bound, "budget_s": 150 if tier == "quick" else 1500}
            for i in range(NSHARDS)]
-    out += [{"name": f"rand{i}", "kind": "rand", "i": i, "count": 8 if tier == "quick" else 80,
+    out += [{"name": f"rand{i}", "kind": "rand", "i": i, "count": 20 if tier == "quick" else 150,
              "budget_s": 60 if tier == "quick" else 600} for i in range(NSHARDS)]
     return out
 
@@ -292,6 +333,8 @@ def run_shard(spec, res):
                     continue
                 for fl in FLAVOURS:
                     run_case({"f": gen.code(f), "flavour": fl, "seed": seed}, res)
+                    if n >= 3:
+                        run_case({"f": gen.code(f), "flavour": fl, "seed": seed, "prelude": True}, res)
                 if res.expired():
                     res.count("exhaustive_cut")
                     res.inconc("enumeration cut by time budget")
@@ -300,7 +343,7 @@ def run_shard(spec, res):
         rng = rng_for(seed, "c09-rand", spec["i"])
         for j in range(spec["count"]):
             f = gen.random_forest(rng, rng.randint(6, 16))
-            run_case({"f": gen.code(f), "flavour": rng.choice(FLAVOURS), "seed": rng.randrange(10**6)}, res)
+            run_case({"f": gen.code(f), "flavour": rng.choice(FLAVOURS), "seed": rng.randrange(10**6), "prelude": rng.random() < 0.5}, res)
             if res.expired():
                 break
 
